@@ -4,6 +4,7 @@ package system
 
 import (
 	"bytes"
+	"fmt"
 	"math/big"
 	"reflect"
 
@@ -136,4 +137,18 @@ func VerifVPRDescribe(scs *statedb.ContractState) string {
 		return s
 	}
 	return "memory: " + d(votingPowerRank) + "\nstate:  " + d(fresh)
+}
+
+// VerifParamsMatchState compares the ACTIVE system parameters of this process with what a node starting on the
+// given state would load (loadParams). Returns a description of the first difference, or "".
+func VerifParamsMatchState(g dataGetter) string {
+	fresh := loadParams(g)
+	for i := sysParamIndex(0); i < sysParamMax; i++ {
+		id := i.ID()
+		a, b := GetParam(id), fresh.getParam(id)
+		if (a == nil) != (b == nil) || (a != nil && a.Cmp(b) != 0) {
+			return fmt.Sprintf("%s: active value %v, value loaded from the state %v", id, a, b)
+		}
+	}
+	return ""
 }
